@@ -182,7 +182,13 @@ class CarvedBTreeCell(BTreeCell):
         self.end_offset = int(self.payload.cell_end_offset)
 
         self.byte_size = self.end_offset - self.start_offset
-        self.md5_hex_digest = get_md5_hash(data[self.start_offset : self.end_offset])
+        # The digest covers the record's own serial type definition and body.  The guessed cell start offset is
+        # relative to the carved region (and can be negative), so hashing from it made the digest depend on the
+        # region instead of the record: the same residue was reported again once its surroundings changed and
+        # different records collapsed into one.
+        self.md5_hex_digest = get_md5_hash(
+            data[serial_type_definition_start_offset : self.end_offset]
+        )
 
         """
 
